@@ -16,6 +16,7 @@ type hookState struct {
 	StmtYield  bool
 	ProtoYield bool
 	Stmt       func(env *fast.Env, pos token.Pos)
+	Spin       func(env *fast.Env) // trailing spinInterrupt pseudo-statement executed
 	EnvAlloc   func(run *fast.Run, env *fast.Env, kind int)
 	EnvFree    func(run *fast.Run, env *fast.Env)
 	EnvRecycle func(run *fast.Run, env *fast.Env, n int) bool
@@ -41,6 +42,13 @@ func init() {
 
 //go:norace
 func hStmt(env *fast.Env, pos token.Pos) {
+	if pos == fast.VerifPosSpin {
+		// not a statement of the program: only budget watchdogs look at it
+		if f := hs.Spin; f != nil {
+			f(env)
+		}
+		return
+	}
 	if f := hs.Stmt; f != nil {
 		f(env, pos)
 	}
